@@ -1,6 +1,7 @@
 package main
 
 import (
+	"math/rand"
 	"sort"
 	"strings"
 
@@ -62,12 +63,16 @@ func c12Build(s *Sexp) (*tree.Tree, *Sexp) {
 }
 
 // one run of acr.ParsimonyAcr exactly as cmd/acr.go calls it (randomResolve=false)
-func c12RunAcr(ts *Sexp, tipstates map[string]string, algo int) *Sexp {
+func c12RunAcr(ts *Sexp, tipstates map[string]string, algo int, rr bool, seed int64) *Sexp {
 	t, bad := c12Build(ts)
 	if bad != nil {
 		return bad
 	}
-	statemap, nsteps, err := acr.ParsimonyAcr(t, tipstates, algo, false)
+	if rr {
+		// cmd/root.go seeds the global source; every run of a case sees the same stream
+		rand.Seed(seed)
+	}
+	statemap, nsteps, err := acr.ParsimonyAcr(t, tipstates, algo, rr)
 	keys := make([]string, 0, len(statemap))
 	for k := range statemap {
 		keys = append(keys, k)
@@ -90,9 +95,14 @@ func c12(c *Sexp) *Sexp {
 			tipstates[k] = vals[i]
 		}
 		algo := c12AcrAlgo(c.Str("algo"))
-		obs := c12RunAcr(c.Get("tree"), tipstates, algo)
+		rr := c.Bool("rr")
+		seed := int64(c.Int("seed"))
+		obs := c12RunAcr(c.Get("tree"), tipstates, algo, rr, seed)
 		if t2 := c.Get("tree2"); t2 != nil {
-			obs.List = append(obs.List, KV("rerooted", c12RunAcr(t2, tipstates, algo)))
+			obs.List = append(obs.List, KV("rerooted", c12RunAcr(t2, tipstates, algo, rr, seed)))
+		}
+		if rr {
+			obs.List = append(obs.List, KV("raw", rawStream(seed, c.Int("nraw"))))
 		}
 		return obs
 	case "asr":
@@ -110,10 +120,18 @@ func c12(c *Sexp) *Sexp {
 		if bad != nil {
 			return bad
 		}
-		nsteps, err := asr.ParsimonyAsr(t, al, c12AsrAlgo(c.Str("algo")), false)
+		rr := c.Bool("rr")
+		seed := int64(c.Int("seed"))
+		if rr {
+			rand.Seed(seed)
+		}
+		nsteps, err := asr.ParsimonyAsr(t, al, c12AsrAlgo(c.Str("algo")), rr)
 		d, audit := ObserveTree(t)
 		obs := L(KV("err", A(errStr(err))), KV("steps", Ints(nsteps)), KV("alphabet", I(al.Alphabet())),
 			KV("tree", d), KV("audit", audit))
+		if rr {
+			obs.List = append(obs.List, KV("raw", rawStream(seed, c.Int("nraw"))))
+		}
 		// the character variant site by site, on a fresh copy of the tree
 		if c.Bool("sitewise") {
 			sites := L()
@@ -123,7 +141,7 @@ func c12(c *Sexp) *Sexp {
 					// the nucleotide at the site, case-insensitively (a and A are the same state)
 					tipstates[n] = strings.ToUpper(seqs[i][j : j+1])
 				}
-				sites.List = append(sites.List, c12RunAcr(c.Get("tree"), tipstates, c12AcrAlgo(c.Str("algo"))))
+				sites.List = append(sites.List, c12RunAcr(c.Get("tree"), tipstates, c12AcrAlgo(c.Str("algo")), false, 0))
 			}
 			obs.List = append(obs.List, KV("sites", sites))
 		}
